@@ -36,6 +36,8 @@ CONFIGS = {
                                       '-fno-sanitize-recover=undefined -fno-omit-frame-pointer'),
     'vg':     dict(cc='gcc',   flags='-O3 -g'),
     'tsan':   dict(cc='clang', flags='-O1 -g -fsanitize=thread'),
+    # the code path for hosts that are not known to be little-endian (byte-wise loads; correct on any host)
+    'portable': dict(cc='gcc', flags=f'-O2 -include {VERIF}/harness/shim/be-belief.h'),
 }
 
 
